@@ -187,10 +187,14 @@ TTree ==
         \*  paths builder; such a case is simply not judged, see apart)
         /\ (a.lat /\ ~cs.loose) => Chk(SameRings(a.paths, nodes), "C04", "tree_paths_differ", Ev.k)
         /\ Chk(Ev.openeq = 1, "C04", "open_paths_differ", Ev.k)
+        \* ... and only for rings that are not slivers (area at least twice the perimeter, i.e. about 4 units wide): without clearance a sliver
+        \* thinner than the rounding error may legitimately be found inside or outside its neighbour (seen: a 3.5-unit triangle hole at the top level)
         /\ judgeL =>
-             /\ Chk(\A i \in 1..N : par[i] # 0 => InsideRing(nodes[i], nodes[par[i]]), "C04", "child_not_in_parent", Ev.k)
-             /\ Chk(\A i \in 1..N : \A j \in 1..N : (i # j /\ par[i] = par[j]) => ~InsideRing(nodes[i], nodes[j]), "C04", "inside_sibling", Ev.k)
-             /\ Chk(mis = {}, "C04", "level_vs_containment", Ev.k)
+             LET Perim(P) == SumF([x \in 1..Len(P) |-> ISqrtHi(Dist2(P[x], Nxt(P, x)))], Len(P))
+                 fat == {i \in 1..N : Abs(Area2(nodes[i])) >= 4 * Perim(nodes[i])}
+             IN /\ Chk(\A i \in fat : par[i] # 0 => InsideRing(nodes[i], nodes[par[i]]), "C04", "child_not_in_parent", Ev.k)
+                /\ Chk(\A i \in fat : \A j \in 1..N : (i # j /\ par[i] = par[j]) => ~InsideRing(nodes[i], nodes[j]), "C04", "inside_sibling", Ev.k)
+                /\ Chk(mis \cap fat = {}, "C04", "level_vs_containment", Ev.k)
         /\ judge =>
              /\ Chk(Area2Set(nodes) = a.area2, "C04", "area", Ev.k)
              /\ IF touchClass THEN Report("C04", "nesting_wrong_for_ring_touching_its_container", Ev.k)
